@@ -17,7 +17,7 @@ ASSUMPTIONS = [
 ]
 
 WS_FILLERS = [" ", "  ", "\n", "\t", "\r\n", " \n\t "]
-COMMENT_FILLERS = [" -- c\n", " # c\n", " /* c */ ", "/* c\n c */", "# c\n", "/**/"]
+COMMENT_FILLERS = [" -- c\n", " # c\n", " /* c */ ", "/* c\n c */", "# c\n", "/**/", " /** c **/ ", "/***/"]
 SKIP_ALPHABET = [" ", "\n", "-", "#", "/", "*", "a", "\t"]
 
 KNOWN_RULE = "ws:comment-in-gap"
